@@ -80,6 +80,74 @@ CLAIMS["C02"] = dict(
          "replay on every run.",
     design="3/C02")
 
+CLAIMS["C07"] = dict(
+    technique="Hypothesis generation + small exhaustive enumeration against "
+              "an independent float64 reference of distances, thresholding, "
+              "rate quantiles and the cross/joint/inter-system compositions",
+    text="Every series over {0,1,2} of length 1..5 x 3 metrics x 4 "
+         "thresholds (ties pinned exactly) is enumerated; generated "
+         "multi-dimensional / embedded series, thresholds on and next to "
+         "actual distances, threshold_std, global and local rates, adaptive "
+         "neighbourhood sizes, NaN masks, unequal lengths and lags of either "
+         "sign are checked cell by cell against vp/ref/recurrence.py (a cell "
+         "within 2 ulp of the threshold in rounded arithmetic is 'either "
+         "answer'); joint / cross / inter-system sizes and compositions, "
+         "network adjacency = R minus diagonal, and applicability + value "
+         "of all 25 RQA methods on every derived class.",
+    note="Trusted: vp/ref/recurrence.py and vp/ref/rqa.py. Known finding "
+         "KF-C07-7 (RecurrenceNetwork with missing values overwrites N) is "
+         "excluded by signature.",
+    design="3/C07")
+CLAIMS["C08"] = dict(
+    technique="exhaustive enumeration of all symmetric 0/1 matrices up to "
+              "5x5 (realised through crafted series) + Hypothesis "
+              "generation, against a run-length-count reference",
+    text="All 1 099 symmetric 0/1 matrices with unit diagonal of size 1..5 "
+         "are realised by crafted series under the supremum metric and "
+         "crossed with missing-sample masks; generated series up to length "
+         "60 (all metrics, embedding, thresholds on/next to distances). "
+         "Diagonal, vertical and white-vertical histograms equal a direct "
+         "run-length count (with the missing-value rule), accounting "
+         "identities hold, sequential mode equals matrix mode bit for bit, "
+         "and 13 scalar RQA measures equal the documented functions of the "
+         "histograms for l_min/v_min/w_min in 1..5.",
+    note="Trusted: vp/ref/rqa.py. The diagonal histogram is compared on "
+         "symmetric matrices only (documented doubling of one triangle).",
+    design="3/C08")
+CLAIMS["C15"] = dict(
+    technique="Hypothesis-generated call histories (1..6 surrogate calls "
+              "on one object, generated as data) with validity predicates "
+              "and an independent twin / recurrence reference",
+    text="For generated data (N 1..4 x n_time 1..64; distinct, tied, "
+         "zero-sum and constant rows) and histories of surrogate calls with "
+         "harness-drawn seeds: shuffle and AAFT outputs are exact row "
+         "permutations, Fourier and 'true spectrum' outputs keep the "
+         "amplitude spectrum at interior frequencies, twins equal the "
+         "reference twin sets, twin surrogates consist of original states "
+         "with admissible transitions; every clause is re-checked after "
+         "other calls on the same object; RecurrencePlot.twins / "
+         "twin_surrogates are held to the same oracle; a row-independence "
+         "metamorphic check catches cross-row rank mix-ups.",
+    note="Trusted: vp/ref/surrogates.py. Amplitude distributions of random "
+         "phases are (correctly) not asserted.",
+    design="3/C15")
+CLAIMS["C16"] = dict(
+    technique="Hypothesis generation against literal loop implementations "
+              "(exact rational arithmetic) of the published ES / ECA "
+              "formulas + metamorphic relations",
+    text="Generated pairs and matrices of event series (0..8 events, "
+         "simultaneous events, events at both ends, timestamps, taumax "
+         "finite/inf, lags, three window types, all symmetrisations): range "
+         "[0,1], equality with vp/ref/events.py where the published formula "
+         "is unambiguous, exchange symmetry, shift invariance, time "
+         "rescaling with unbounded window, N x N assembly under each "
+         "symmetrisation, and exact thresholding of continuous data by "
+         "quantile or value.",
+    note="Trusted: vp/ref/events.py. Configurations with coincidences in "
+         "both directions are held to the relations only (the double-count "
+         "correction is cited, not spelled out, by the repository).",
+    design="3/C16")
+
 NOT_CLAIMED = {}
 
 
